@@ -150,6 +150,11 @@ class Identifier(Node):
                                 parsed_names.append(parsed)
                             else:
                                 parsed_names.append(name)
+                    if len(parsed_names) > 4096:
+                        # a mixin that reaches itself through a rule with
+                        # several selectors doubles the list at every level
+                        raise SyntaxError(
+                            'Too many selectors (a mixin calling itself?)')
                 return parsed_names
         return names
 
